@@ -106,6 +106,42 @@ func firstDiff(want, got any, ptr string) (string, string) {
 	return ptr, "changed"
 }
 
+// invented returns the pointer of the first member or value of got that want does not have.
+func invented(want, got any, ptr string) string {
+	switch g := got.(type) {
+	case map[string]any:
+		w, ok := want.(map[string]any)
+		if !ok {
+			return ptr
+		}
+		for _, k := range jv.Keys(g) {
+			wv, has := w[k]
+			if !has || (wv == nil && g[k] != nil) {
+				return ptr + "/" + k
+			}
+			if p := invented(wv, g[k], ptr+"/"+k); p != "" {
+				return p
+			}
+		}
+		return ""
+	case []any:
+		w, ok := want.([]any)
+		if !ok || len(w) != len(g) {
+			return ptr
+		}
+		for i := range g {
+			if p := invented(w[i], g[i], fmt.Sprintf("%s/%d", ptr, i)); p != "" {
+				return p
+			}
+		}
+		return ""
+	}
+	if !jv.Equal(want, got) {
+		return ptr
+	}
+	return ""
+}
+
 // sigOf turns a pointer into a stable signature: last two tokens, map keys generalised.
 func sigOf(ptr, class string) string {
 	toks := strings.Split(strings.TrimPrefix(ptr, "/"), "/")
@@ -153,6 +189,14 @@ func check(c Case) (o h.Outcome) {
 	if c.Normal {
 		if p, cls := firstDiff(D, J1, ""); p != "" {
 			o.Fail(fmt.Sprintf("R1:v%d:%s", c.Version, sigOf(p, cls)), "R1 (normal form round trip): %s at %s\ninput=%s\noutput=%s", cls, p, c.Doc, j1)
+			return
+		}
+	}
+	// R1b: a document that is not in normal form may lose its redundant parts, but nothing may appear
+	// in the output that was not in the input (an explicit null counts as absent)
+	if !c.Normal {
+		if p := invented(D, J1, ""); p != "" {
+			o.Fail(fmt.Sprintf("R1b:v%d:%s", c.Version, sigOf(p, "invented")), "R1b (nothing appears that was not in the input): %s\ninput=%s\noutput=%s", p, c.Doc, j1)
 			return
 		}
 	}
@@ -284,7 +328,7 @@ func denormalise(t *rapid.T, v any) {
 			}
 		}
 		if fixed && rapid.IntRange(0, 3).Draw(t, "redundant") == 0 {
-			kv := rapid.SampledFrom([][2]any{{"deprecated", false}, {"description", ""}, {"summary", ""}, {"x-null", nil}, {"uniqueItems", false}, {"title", ""}}).Draw(t, "rfield")
+			kv := rapid.SampledFrom([][2]any{{"deprecated", false}, {"description", ""}, {"summary", ""}, {"x-null", nil}, {"uniqueItems", false}, {"title", ""}, {"additionalProperties", nil}, {"example", nil}, {"default", nil}, {"items", nil}}).Draw(t, "rfield")
 			if _, exists := x[kv[0].(string)]; !exists {
 				x[kv[0].(string)] = kv[1]
 			}
